@@ -153,10 +153,10 @@ ADD4 = {
  "C01": " The consensus-parameter twin is also run with read-only traffic interleaved (a gas meter shared between CheckTx and DeliverTx shows there)." + RS,
  "C02": " The invariant also holds in every history run under consensus parameters that admit ed25519 validator keys only (C02_all_histories_under_key_restriction: run_cp, App/KeyTypes.v - any invariant the ordinary step and the ante handler preserve is preserved). A third denomination that sorts after the staking one; accounts that hold nothing else." + RS,
  "C03": " secp256k1 signers; signatures with one byte more, one less, one bit flipped; multisignature slots signed by another key, left empty, all left empty, one byte longer; memos changed after signing in white space only." + RS,
- "C04": " Awards queued for nobody's address, for module addresses and for longer addresses (an award to the pool's own address is a gift, as in the theorem's hypothesis)." + RS,
+ "C04": " Both history-level statements also hold in every history under the key-type restriction (C04_pool_backs_stake_under_key_restriction, C04_pool_holds_exactly_the_stake_under_key_restriction; App/KeyTypesMore.v). Awards queued for nobody's address, for module addresses and for longer addresses (an award to the pool's own address is a gift, as in the theorem's hypothesis)." + RS,
  "C05": " The guard in front of InitChain: a genesis file that repeats a validator key, at any position, must be refused by ValidateGenesis (control: the same file without the repeated entry is accepted)." + RS,
- "C06": " Index soundness and both queue invariants also hold in every history under the key-type restriction (C06_*_under_key_restriction)." + RS, "C07": RS,
- "C08": " Every window position of the int64 range has its own stored key and validators never share one (C08_window_positions_have_their_own_keys, C08_validators_never_share_a_position_key). The stored key of a window position (GetValMissedBlockKey) is compared with the model's missed_key - proved injective - for positions over the whole int64 range, and two positions with one key are searched for directly: a window longer than any history the driver can run still has one key per position." + RS,
+ "C06": " Directed: two validators begin unstaking in one block (one queue slot) and the one queued first is convicted of double signing. Index soundness and both queue invariants also hold in every history under the key-type restriction (C06_*_under_key_restriction)." + RS, "C07": RS,
+ "C08": " Counter = stored misses also in every history under the key-type restriction (C08_counter_equals_stored_misses_under_key_restriction). Every window position of the int64 range has its own stored key and validators never share one (C08_window_positions_have_their_own_keys, C08_validators_never_share_a_position_key). The stored key of a window position (GetValMissedBlockKey) is compared with the model's missed_key - proved injective - for positions over the whole int64 range, and two positions with one key are searched for directly: a window longer than any history the driver can run still has one key per position." + RS,
  "C09": " Directed: the minimum stake is raised just above a jailed, still staked validator; when its term is over its unjail must be refused." + RS,
  "C10": RS,
  "C11": " Under consensus parameters that admit ed25519 validator keys only (a third of the histories; model deliver_tx_cp, App/KeyTypes.v, proved equal to deliver_tx without the restriction): a first-time stake under another key type passes the ante handler, pays its fee and leaves nothing else (C11_cp_refuses_other_key_types, C11_cp_handler_err_pays_fee_only). Parameter keys of unknown subspaces, recipients of unusual address length; a process that ends inside DeliverTx is reported with the transaction." + RS,
